@@ -254,7 +254,7 @@ func (f *File) AddChild(child Box, boxStartPos uint64) {
 		f.Ftyp = box
 	case *MoovBox:
 		f.Moov = box
-		if len(f.Moov.Trak.Mdia.Minf.Stbl.Stts.SampleCount) == 0 {
+		if !moovHasSamples(box) {
 			f.isFragmented = true
 			f.Init = NewMP4Init()
 			f.Init.AddChild(f.Ftyp)
@@ -324,6 +324,17 @@ func (f *File) AddChild(child Box, boxStartPos uint64) {
 		f.Mfra = box
 	}
 	f.Children = append(f.Children, child)
+}
+
+// moovHasSamples tells whether the first track of moov lists samples (progressive file).
+// A moov without trak, or with a trak lacking its mdia/minf/stbl/stts boxes, has none.
+func moovHasSamples(moov *MoovBox) bool {
+	trak := moov.Trak
+	if trak == nil || trak.Mdia == nil || trak.Mdia.Minf == nil || trak.Mdia.Minf.Stbl == nil ||
+		trak.Mdia.Minf.Stbl.Stts == nil {
+		return false
+	}
+	return len(trak.Mdia.Minf.Stbl.Stts.SampleCount) != 0
 }
 
 // startSegmentIfNeeded starts a new segment if there is none or if position match with sidx of tfra.
